@@ -4,17 +4,19 @@ from props import c05
 
 ID = "C12"
 HARNESS = "c12"
-N_CASES = {"quick": 100, "thorough": 500}
+N_CASES = {"quick": 60, "thorough": 500}
 N_SEARCH = {"quick": 1, "thorough": 1}
-SHARD = 12
+SHARD = 8
 HAS_MODEL_OUT = True
 CASES_HEADER = "From DnsV Require Import Model.Reload Model.Cache Run.C05 Run.C12."
 RULE = ("(1) -n seeded sequential histories (10-40 events) fed to two real handlers, cache on (LRU size 2/3/5/64) and cache off: "
         "queries over 17 name/type variants (same name in different letter case, A/TXT/MX/SOA/AAAA, NXDOMAIN, NODATA, referral, "
-        "REFUSED, weighted), requesters of two locations plus IPv6, with/without EDNS, ECS inside/outside a mapped subnet, RD "
-        "bit, class IN/CHAOS, interleaved with successful full reloads, failing reloads (missing, unreadable, no validation "
+        "REFUSED, weighted), requesters of four locations (ids 0/1, 0/2, 0/58, 1/58: pairs sharing the first or the second id "
+        "byte, each with its own data for geo.example.com) plus IPv6, with/without EDNS, EDNS version 0/1/2, ECS inside/outside "
+        "a mapped subnet, RD bit, class IN/CHAOS, interleaved with successful full reloads, failing reloads (missing, unreadable, no validation "
         "key) and partial reloads; fixed histories: formatted-key collisions (TYPE1001/CLASS1 vs TYPE100/CLASS1001; class 100 "
-        "name 1x... vs class 1001 name x...; 1www vs www), IN vs CHAOS, weighted answers cached for one second and expired "
+        "name 1x... vs class 1001 name x...; 1www vs www), IN vs CHAOS, one question alternating between the four locations "
+        "(by resolver address and by ECS), unsupported EDNS versions on a cold and a warm cache, weighted answers cached for one second and expired "
         "after a 2.2 s wait; (2) schedules with the cache enabled replayed through the yield points: F6 shape, insert between "
         "swap and purge, hit / reload / miss, n/3 random schedules of 2-3 queries on few keys x 2 reloads (cdb; RocksDB "
         "shapes); non-trivial = history with at least one cache hit, or schedule with a reload step between two query steps")
@@ -52,9 +54,9 @@ def to_coq(c):
         b = h0[i] if i < len(h0) else {"now": 0, "resp": {}, "rel": "", "exp": 0}
         if t["kind"] == "q":
             sh = c["shapes"][i]
-            evs.append("HQuery (mkHQ %d %d %d %s %s %s %d %s %s %s %s)" % (
+            evs.append("HQuery (mkHQ %d %d %d %s %s %s %s %d %s %s %s %s)" % (
                 c["locs"][i], t["qtype"], t.get("qclass") or 1, cstr_bytes(t["name"].lower()),
-                cbool(sh["refused"]), cbool(sh["weighted"]), a["now"],
+                cbool(sh["refused"]), cbool(sh["weighted"]), cbool(bool(t.get("edns")) and t.get("ever", 0) != 0), a["now"],
                 cbool(a["resp"].get("hit", 0) == 1), cbool(a.get("exp", 0) == 1),
                 _oresp(a["resp"]), _oresp(b["resp"])))
         elif t["kind"] == "r":
